@@ -760,6 +760,7 @@ def run_controlled(op, *, prefix=(), is_async=False, batch_order=False, watchdog
 # --------------------------------------------------------------------------- harness node functions
 
 FAIL: Dict[str, str] = {}  # node id -> 'V' | 'U'  (set by the check before running a program)
+RET_NONE: set = set()  # node ids whose function returns None
 FAIL_IF_ARG: Dict[str, Any] = {}  # node id -> value: the node raises when one of its positional arguments equals it
 
 
@@ -777,6 +778,8 @@ def node_body(fname: str, a: tuple, k: dict):
         c.node_exit(nid, serial, "raise")
         raise (ValueError if f == "V" else UserError)(f"boom in {nid}")
     c.node_exit(nid, serial, "ok")
+    if nid in RET_NONE:
+        return None
     return Tok(nid, serial)
 
 
